@@ -5,7 +5,7 @@
 Require Import ZArith List String Bool Reals.
 Import ListNotations.
 From GLMV Require Import Expr SemR Cat Comm Chk SpecLinAlg SpecProj SpecGeom.
-From W Require Gen_C09 Gen_C09_LH P_C09 P_C09_lookat.
+From W Require Gen_C09 Gen_C09_LH Gen_C09_ZO Gen_C09_LHZO P_C09 P_C09_lookat.
 Local Open Scope string_scope.
 Theorem C09_translate_scale : P_C09.translate_scale_ok. Proof. exact P_C09.translate_scale_def. Qed.
 Theorem C09_rotate_is_right_multiplication_by_rodrigues : P_C09.rotate_ok. Proof. exact P_C09.rotate_def. Qed.
@@ -16,7 +16,9 @@ Theorem C09_lookAtRH : P_C09_lookat.lookat_ok "lookAtRH" (-1). Proof. exact P_C0
 Theorem C09_lookAtLH : P_C09_lookat.lookat_ok "lookAtLH" 1. Proof. exact P_C09_lookat.lookAtLH_def. Qed.
 Theorem C09_lookAt_follows_configured_handedness :
   P_C09_lookat.same P_C09_lookat.cat P_C09_lookat.cat "lookAt" "lookAtRH" && P_C09_lookat.same Gen_C09_LH.catalogue Gen_C09_LH.catalogue "lookAt" "lookAtLH"
-  && P_C09_lookat.same P_C09_lookat.cat Gen_C09_LH.catalogue "lookAtRH" "lookAtRH" && P_C09_lookat.same P_C09_lookat.cat Gen_C09_LH.catalogue "lookAtLH" "lookAtLH" = true.
+  && P_C09_lookat.same P_C09_lookat.cat Gen_C09_LH.catalogue "lookAtRH" "lookAtRH" && P_C09_lookat.same P_C09_lookat.cat Gen_C09_LH.catalogue "lookAtLH" "lookAtLH"
+  && P_C09_lookat.same Gen_C09_ZO.catalogue P_C09_lookat.cat "lookAt" "lookAtRH" && P_C09_lookat.same Gen_C09_LHZO.catalogue P_C09_lookat.cat "lookAt" "lookAtLH"
+  && P_C09_lookat.same Gen_C09_ZO.catalogue P_C09_lookat.cat "lookAtLH" "lookAtLH" && P_C09_lookat.same Gen_C09_LHZO.catalogue P_C09_lookat.cat "lookAtRH" "lookAtRH" = true.
 Proof. exact P_C09_lookat.lookAt_dispatch. Qed.
 Print Assumptions C09_translate_scale.
 Print Assumptions C09_rotate_is_right_multiplication_by_rodrigues.
